@@ -66,61 +66,7 @@ func runC13(r *fw.Run) {
 	r.Expect("C13-R1", "accesses of trigger.subscriptions", counts["trigger.subscriptions"], 12)
 
 	// ---- R2 lock order and teardown outside locks ---------------------------------------------
-	r.Rule("C13-R2", "lock order updater.mu > Resolver.mu > trigger.mu; writeMu, trigger cancel functions, closeSubs and client writers are never used with Resolver.mu or trigger.mu held")
-	rank := map[string]int{lkUpdater: 3, lkResolver: 2, lkTrigger: 1, lkWriteMu: 0}
-	nAcq, nOut := 0, 0
-	la.Visit(func(in *fw.Interp, n ast.Node, st *fw.State) {
-		call, ok := n.(*ast.CallExpr)
-		if !ok {
-			return
-		}
-		site := fw.SiteLabel(in)
-		if op, ok := fw.LockOpOf(in.Info, call); ok && op.Acquire {
-			rk, known := rank[op.ID]
-			if !known {
-				return
-			}
-			nAcq++
-			bad := ""
-			for _, h := range fw.HeldLocks(st) {
-				hid := h[2:]
-				if hr, ok := rank[hid]; ok && hr <= rk {
-					bad = hid
-				}
-			}
-			r.Check(bad == "", "C13-R2", site+"/acquire:"+op.ID, p.Pos(call.Pos()), "acquire "+op.ID+" in "+site,
-				"acquired while holding "+bad+", against the documented order subscriptionUpdater.mu > Resolver.mu > trigger.mu > (writeMu outside those locks): deadlock with a goroutine taking them in the documented order")
-			return
-		}
-		// calls that must run outside the registry locks
-		role := ""
-		fn := fw.Callee(in.Info, call)
-		switch {
-		case fn != nil && fw.FuncIs(fn, "resolve", "closeSubs"):
-			role = "closeSubs"
-		case fn == nil && isCancelFuncCall(in.Info, call) && !isLocalTimeoutCancel(in.FI, call):
-			role = "context.CancelFunc call"
-		case fn != nil && isWriterIface(recvType(fn)):
-			role = "client writer " + fn.Name()
-		case fn != nil && fw.FuncIs(fn, "resolve", "SubscriptionDataSource.Start"),
-			fn != nil && fn.Name() == "SubscriptionOnStart":
-			role = "data source " + fn.Name()
-		}
-		if role == "" {
-			return
-		}
-		nOut++
-		bad := ""
-		for _, id := range []string{lkResolver, lkTrigger} {
-			if st.May("L:"+id) || st.May("R:"+id) {
-				bad = id
-			}
-		}
-		r.Check(bad == "", "C13-R2", site+"/outside-locks:"+role, p.Pos(call.Pos()), role+" in "+site,
-			"reachable with "+bad+" held: client I/O, cancel functions and completion run user code that may call back into the resolver (self-deadlock) or block every other subscription")
-	})
-	r.Expect("C13-R2", "acquisitions of ranked locks", nAcq, 27)
-	r.Expect("C13-R2", "calls that must run outside registry locks", nOut, 14)
+	checkSubsLockOrder(r, "C13-R2", la)
 
 	// ---- R3 result consumption -----------------------------------------------------------------
 	r.Rule("C13-R3", "at every call of removeSubscriptionLocked / detachTriggerLocked / removeClient each field of the result (removed, toClose, triggerCancel|cancels, initialized|triggerDec) is consumed on all paths (metrics fields only when a reporter exists)")
@@ -572,6 +518,67 @@ func runC13(r *fw.Run) {
 	})
 	r.Expect("C13-R7", "cancellation callbacks", nAfter, 1)
 	_ = strings.Join
+}
+
+// checkSubsLockOrder: lock order updater.mu > Resolver.mu > trigger.mu > writeMu (never re-entered) and
+// no client I/O / cancel / completion with a registry lock held. Shared by C13-R2 and C12-R4.
+func checkSubsLockOrder(r *fw.Run, rule string, la *fw.LockAnalysis) {
+	p := r.Prog
+	r.Rule(rule, "lock order updater.mu > Resolver.mu > trigger.mu; writeMu, trigger cancel functions, closeSubs and client writers are never used with Resolver.mu or trigger.mu held")
+	rank := map[string]int{lkUpdater: 3, lkResolver: 2, lkTrigger: 1, lkWriteMu: 0}
+	nAcq, nOut := 0, 0
+	la.Visit(func(in *fw.Interp, n ast.Node, st *fw.State) {
+		call, ok := n.(*ast.CallExpr)
+		if !ok {
+			return
+		}
+		site := fw.SiteLabel(in)
+		if op, ok := fw.LockOpOf(in.Info, call); ok && op.Acquire {
+			rk, known := rank[op.ID]
+			if !known {
+				return
+			}
+			nAcq++
+			bad := ""
+			for _, hid := range fw.MayHeldLocks(st) {
+				if hr, ok := rank[hid]; ok && hr <= rk {
+					bad = hid
+				}
+			}
+			r.Check(bad == "", rule, site+"/acquire:"+op.ID, p.Pos(call.Pos()), "acquire "+op.ID+" in "+site,
+				"acquired while (possibly) holding "+bad+" (held at entry on some call path or acquired earlier), against the documented order subscriptionUpdater.mu > Resolver.mu > trigger.mu > (writeMu outside those locks): deadlock with a goroutine taking them in the documented order")
+			return
+		}
+		// calls that must run outside the registry locks
+		role := ""
+		fn := fw.Callee(in.Info, call)
+		switch {
+		case fn != nil && fw.FuncIs(fn, "resolve", "closeSubs"):
+			role = "closeSubs"
+		case fn == nil && isCancelFuncCall(in.Info, call) && !isLocalTimeoutCancel(in.FI, call):
+			role = "context.CancelFunc call"
+		case fn != nil && isWriterIface(recvType(fn)):
+			role = "client writer " + fn.Name()
+		case fn != nil && fw.FuncIs(fn, "resolve", "SubscriptionDataSource.Start"),
+			fn != nil && fn.Name() == "SubscriptionOnStart":
+			role = "data source " + fn.Name()
+		}
+		if role == "" {
+			return
+		}
+		nOut++
+		bad := ""
+		for _, id := range []string{lkResolver, lkTrigger} {
+			if st.May("L:"+id) || st.May("R:"+id) {
+				bad = id
+			}
+		}
+		r.Check(bad == "", rule, site+"/outside-locks:"+role, p.Pos(call.Pos()), role+" in "+site,
+			"reachable with "+bad+" held: client I/O, cancel functions and completion run user code that may call back into the resolver (self-deadlock) or block every other subscription")
+	})
+	r.Expect(rule, "acquisitions of ranked locks", nAcq, 27)
+	r.Expect(rule, "calls that must run outside registry locks", nOut, 14)
+
 }
 
 // isLocalTimeoutCancel: the called CancelFunc is a local variable defined by context.With*
